@@ -174,7 +174,10 @@ def tlc(
 
 
 def _tail(s, n=40):
-    return "\n".join(s.splitlines()[-n:])
+    ls = [x for x in s.splitlines() if not re.match(r"^\d+\. Line", x)]
+    i = next((k for k, x in enumerate(ls) if x.startswith("Error:")), None)
+    head = ls[i:i + 12] if i is not None else []
+    return "\n".join(head + ["..."] + ls[-n:])
 
 
 # ----------------------------------------------------------------------------------------
